@@ -79,6 +79,11 @@ checks.update({
    technique="exhaustive enumeration of (way a value was obtained) x client path x every bounded sequence of memory-disturbing follow-up events on real members; byte-for-byte comparison of the held value with the copy taken at return time, and of the store with what it should hold after the caller scribbled over its value",
    text="Handles {Get.Byte, Get.String, Get.Scan into *[]byte / *string, GetPut's old value, iterator key} x paths {EO, EN, CC} x all sequences of length <= 2 (quick) / 3 (thorough) over {overwrite same size, overwrite larger, delete, churn that fills/compacts/recycles/reuses the partition's tables, compaction, caller overwrites the returned bytes, join + rebalancing} x table sizes {128 B, 64 KiB}: the held value never changes, a caller's writes never reach the store, and the buffer passed to Put may be overwritten as soon as Put returns.",
    note="sequential enumeration; the reader/writer interleaving variant of the design (E3) is not built - aliasing is a memory-lifetime matter that the sequential sequences with table recycling expose"),
+
+ "C03": dict(cat="model_checking", engine="clustermc", ref="6 C03",
+   technique="explicit-state BFS over membership, hand-over-step and client-operation events on real members (path replay, canonical state); reads from every member in every state, structural white-box oracle after stabilising a throw-away replay",
+   text="All sequences up to depth 4 (quick) / 5 (thorough) of {Put / Delete of 3 keys (two share a partition) through the oldest or youngest member, join, routing push, one balancer pass on member i (one table per fragment), compaction, janitor, graceful leave (offered only while ReplicaCount distinct members hold every live key)} from 1-2 members up to 3, R in 1..2, 64 KiB and 128-byte tables. Join histories: in every state a Get of every key from every serving member returns the last acknowledged value or not-found; after stabilisation every live key is stored exactly once as a primary copy on the partition owner and keeps its backup copies. Every history: after stabilisation reads return the last acknowledged value, deleted keys are not-found and stored nowhere.",
+   note="sender/receiver crash in the middle of a fragment move is not enumerated (faults belong to C02, not built); membership comes from the fake discovery layer; the join/leave split of the oracle follows the statement (see DESIGN 12)"),
 })
 not_applicable = {}
 all_ids = ["C%02d" % i for i in range(1, 21)]
@@ -100,7 +105,7 @@ m = {
    {"name": "schedmc", "path": "harness/schedmc", "serves_properties": ["C01", "C07", "C08"], "kind_free_text": "stateless schedule exploration (preemption bounded DFS) of real members under a cooperative scheduler"},
    {"name": "inputmc", "path": "harness/checks/c16.go", "serves_properties": ["C16", "C17"], "kind_free_text": "exhaustive enumeration of request argument vectors / byte frames / typed boundary values through the real handlers and clients, in crash-isolated workers with a watchdog"},
    {"name": "faultgrid", "path": "harness/checks", "serves_properties": ["C05", "C06", "C15", "C18"], "kind_free_text": "exhaustive enumeration of finite configuration / fault / layout grids, one fresh real cluster per case"},
-   {"name": "clustermc", "path": "harness/clustermc", "serves_properties": ["C04", "C09", "C10", "C13", "C19"], "kind_free_text": "explicit-state BFS over event sequences on a simulated cluster of real members (path replay)"},
+   {"name": "clustermc", "path": "harness/clustermc", "serves_properties": ["C03", "C04", "C09", "C10", "C12", "C13", "C19"], "kind_free_text": "explicit-state BFS over event sequences on a simulated cluster of real members (path replay)"},
  ],
  "checks": [],
  "not_applicable": [{"property_id": k, "reason": v} for k, v in sorted(not_applicable.items())],
